@@ -22,7 +22,7 @@ StrAtoms(qq) ==
     <<49>>, <<92, 110>>, <<92, 116>>, <<92, 92>>, <<92, 39>>, <<92, 34>>, <<92, 96>>, <<92, 48>>, <<92, 97>>, <<92, 47>>,
     <<92, 10>>, <<92, 13, 10>>, <<92, 49>>, <<92, 49, 48, 49>>, <<92, 51, 55, 55>> }
   \cup {<<92, 120>> \o Hex2(v) : v \in {0, 10, 34, 39, 49, 65, 92, 96, 127, 128, 233, 255}}
-  \cup {<<92, 117>> \o Hex4(v) : v \in {0, 10, 34, 55, 65, 92, 233, 8232, 55357, 56832, 65535}}
+  \cup {<<92, 117>> \o Hex4(v) : v \in {0, 10, 34, 55, 65, 92, 233, 8232, 55296, 55357, 55360, 56319, 56320, 56832, 57343, 65535}}
   \cup {<<92, 117, 123>> \o ds \o <<125>> : ds \in {<<48>>, <<52, 49>>, <<48, 48, 48, 48, 52, 49>>, <<49, 70, 54, 48, 48>>,
                                                    <<49, 48, 70, 70, 70, 70>>, <<68, 56, 48, 48>>, <<50, 50>>, <<48, 48, 48, 48, 48, 48, 52, 49>>}}
 RawAtoms == { <<97>>, <<32>>, <<10>>, <<13, 10>>, <<32, 32, 10>>, <<92, 96>>, <<92, 92>>, <<39>>, <<34>>, <<36>>, <<123>>,
@@ -33,7 +33,10 @@ Numbers == { <<48>>, <<55>>, <<52, 50>>, <<49, 46, 53>>, <<48, 46, 53>>, <<49, 1
              <<49, 101, 52, 48, 48>>, <<48, 46, 49>>, <<49, 50, 51, 52, 53, 54, 55, 56, 57, 48, 49, 50, 51, 52, 53, 54, 55, 56, 57, 48>>,
              <<48, 56>>, <<49, 46, 48, 48>>, <<48, 120, 102, 102, 102, 102, 102, 102, 102, 102, 102, 102>> }
 
+\* string literals in property-name position: bodies that look like numbers must stay strings
+KeyBodies == {<<49, 101, 51>>, <<48, 120, 49, 48>>, <<48, 49, 48>>, <<48, 48>>, <<97>>, <<49>>, <<49, 46, 48>>, <<92, 120, 51, 49, 101, 51>>}
 Init == \/ kind = "str" /\ q \in {34, 39} /\ body = <<>>
+        \/ kind = "key" /\ q \in {34, 39} /\ body \in {<<b>> : b \in KeyBodies}
         \/ kind = "raw" /\ q = 96 /\ body = <<>>
         \/ kind = "num" /\ q = 0 /\ body \in {<<n>> : n \in Numbers}
         \/ kind = "sweepx" /\ q = 34 /\ body \in {<<<<92, 120>> \o Hex2(v)>> : v \in (IF Sweep THEN 0..255 ELSE {})}
@@ -47,7 +50,10 @@ RECURSIVE Flat(_)
 Flat(s) == IF s = <<>> THEN <<>> ELSE Head(s) \o Flat(Tail(s))
 Lit == IF kind = "num" THEN Flat(body) ELSE <<q>> \o Flat(body) \o <<q>>
 \* let v = <lit>;print(v);
-Src == <<108, 101, 116, 32, 118, 32, 61, 32>> \o Lit \o <<59, 112, 114, 105, 110, 116, 40, 118, 41, 59>>
+\* let v = <lit>;print(v);      or, for kind "key":  let v = {<lit>:1};print(v);
+Src == IF kind = "key"
+       THEN <<108, 101, 116, 32, 118, 32, 61, 32, 123>> \o Lit \o <<58, 49, 125, 59, 112, 114, 105, 110, 116, 40, 118, 41, 59>>
+       ELSE <<108, 101, 116, 32, 118, 32, 61, 32>> \o Lit \o <<59, 112, 114, 105, 110, 116, 40, 118, 41, 59>>
 
 \* escapeDoubleQuotes of ast.go (StringLiteral.WriteTo)
 RECURSIVE EscDQ(_, _)
@@ -66,13 +72,13 @@ EscBT(v, i) ==
   ELSE <<v[i]>> \o EscBT(v, i + 1)
 
 Toks == LexAll(Src, 0)
-LitTok == Toks[4]        \* let v = <literal>
+LitTok == Toks[IF kind = "key" THEN 5 ELSE 4]        \* let v = <literal>   /   let v = { <literal>
 ModelOut ==
   CASE LitTok.ty = "STRING" -> <<34>> \o EscDQ(LitTok.lit, 1) \o <<34>>
     [] LitTok.ty = "RAW_STRING" -> <<96>> \o EscBT(LitTok.lit, 1) \o <<96>>
     [] OTHER -> LitTok.lit
 HasSubst == \E j \in 1..(Len(Flat(body)) - 1) : Flat(body)[j] = 36 /\ Flat(body)[j + 1] = 123
-RefValue == IF HasSubst THEN Invalid ELSE IF kind \in {"str", "sweepx", "sweepu"} THEN SV(Flat(body)) ELSE IF kind = "raw" THEN TV(Flat(body)) ELSE <<>>
+RefValue == IF HasSubst THEN Invalid ELSE IF kind \in {"str", "sweepx", "sweepu", "key"} THEN SV(Flat(body)) ELSE IF kind = "raw" THEN TV(Flat(body)) ELSE <<>>
 \* how JavaScript reads a quoted literal text: the body ends at the first unescaped closing quote,
 \* which must be the last byte
 RECURSIVE CloseAt(_, _, _)
